@@ -319,11 +319,20 @@ fn stage_fault(i: &Input, c: &mut Case) -> Result<(), String> {
     };
     let mut units = 0;
     let mut reached = 0;
+    let respell = t.chance(1, 3);
+    c.label_if(respell, "tolerance_slice_respelled");
     with_spec!(d.spec, T => {
         for tol in ALL_TOL {
             let cfg = ReadCfg { tolerate: tol, max_size: max_size.clone(), ..ReadCfg::default() };
             let obs = read_all::<T>(&bytes, &cfg);
             units += 1;
+            // the same set of classes spelled differently (reverse order, each class twice) is the same configuration
+            if tol != 0 && respell {
+                let obs2 = read_all::<T>(&bytes, &ReadCfg { tolerate: tol | TOL_RESPELLED, ..cfg.clone() });
+                if obs2 != obs {
+                    return Err(format!("allow_errors() given the classes {:03b} in reverse order and each twice reads differently\n  once:  {}\n  twice: {}\n  bytes: {}", tol, render_obs(&obs), render_obs(&obs2), hex(&bytes[..bytes.len().min(200)])));
+                }
+            }
             let items = items_of(&obs);
             let err = first_err(&obs);
             let ctx = |m: String| format!("{}\n  fault {:?} at {:?}, tolerated {:03b}, limit {:?}\n  observed: {}\n  doc: {}\n  bytes: {}", m, fault, fault_at, tol, max_size, render_obs(&obs), render_forest(&d.forest), hex(&bytes[..bytes.len().min(200)]));
@@ -542,7 +551,7 @@ pub fn run(rc: &mut RunCtx) {
     rc.run_pt(STAGES[0], rc.pick(160_000, 800_000), (96, 500));
     rc.run_pt(STAGES[2], rc.pick(160_000, 800_000), (96, 500));
     rc.require_label("single_fault", "overrun_through_unknown_size_master", 5_000);
-    for l in ["fault_unknown_id", "fault_misplaced", "fault_overrun", "fault_oversize", "fault_unknown_id_and_overrun", "own_class_tolerated", "limit_untouched"] {
+    for l in ["fault_unknown_id", "fault_misplaced", "fault_overrun", "fault_oversize", "fault_unknown_id_and_overrun", "own_class_tolerated", "limit_untouched", "tolerance_slice_respelled"] {
         rc.require_label("single_fault", l, 20_000);
     }
     rc.require_label("mutated", "tolerant_parse_goes_further", 50_000);
